@@ -32,7 +32,9 @@ class OperatorsExtractor(walkers.dag.DagWalker):
         :param expression: The target expression.
         :return: The set containing all the operators appearing in the given expression.
         """
-        return self.walk(expression)
+        # the walk returns the memoized set: give the caller its own copy, so
+        # that modifying the result does not alter the answers of later calls
+        return set(self.walk(expression))
 
     @walkers.handles(OperatorKind)
     def walk_all_types(
